@@ -24,10 +24,22 @@ CkElems ==
     <<V(Tok("HS512", <<>>, <<>>, Sig("valid", "HS512", K512)))>>,
     <<CSetCbOp(<<CbRet(1)>>), V(Good), CSetCbOp(<<CbRet(0)>>)>>,
     <<CSetKeyOp("none", 0), V(Good)>>,
+    \* a callback that selects another key for one call only (lookup-by-kid pattern), then stops doing so
+    <<CSetCbOp(<<CbKey(2), CbAlg("HS512")>>), V(Tok("HS512", <<>>, <<>>, Sig("valid", "HS512", K512))), CSetCbOp(<<CbRet(0)>>)>>,
     <<[op |-> "CErrClear", c |-> 0]>> }
 RECURSIVE CkSeqs(_)
 CkSeqs(n) == IF n = 0 THEN {<<>>} ELSE { e \o t : e \in CkElems, t \in CkSeqs(n - 1) }
-CheckerScripts == { <<LoadOp(<<KOct, KShort>>), CNewOp, CSetKeyOp("HS256", 0)>> \o q : q \in CkSeqs(MaxLen) }
+CheckerScripts == { <<LoadOp(<<KOct, KShort, K512>>), CNewOp, CSetKeyOp("HS256", 0)>> \o q : q \in CkSeqs(MaxLen) }
+\* a checker that never had setkey: keys come from the callback, per call
+Unsigned == Tok("none", <<>>, <<StrM("iss", "me")>>, EmptySig)
+NkElems ==
+  { <<V(Unsigned)>>, <<V(Good)>>,
+    <<CSetCbOp(<<CbKey(0), CbAlg("HS256")>>), V(Good), CSetCbOp(<<CbRet(0)>>)>>,
+    <<CSetCbOp(<<CbKey(2), CbAlg("HS512")>>), V(Unsigned), CSetCbOp(<<CbRet(0)>>)>>,
+    <<[op |-> "CErrClear", c |-> 0]>> }
+RECURSIVE NkSeqs(_)
+NkSeqs(n) == IF n = 0 THEN {<<>>} ELSE { e \o t : e \in NkElems, t \in NkSeqs(n - 1) }
+NoKeyScripts == { <<LoadOp(<<KOct, KShort, K512>>), CNewOp>> \o q : q \in NkSeqs(MaxLen) }
 
 G == [op |-> "Generate", b |-> 0, slot |-> 0, twin |-> 1]
 Val(t, n, v, r) == [t |-> t, name |-> n, val |-> v, replace |-> r, jcls |-> NONE, jm |-> <<>>, jcanon |-> NONE]
@@ -37,12 +49,14 @@ BdElems ==
     <<BSetKeyOp("HS256", 1), G, BSetKeyOp("HS256", 0)>>,                          \* key below the floor, then back
     <<BSetKeyOp("none", 0), G>>,                                                  \* refused setkey leaves the flag set
     <<[op |-> "BErrClear", b |-> 0]>>,
+    <<BSetCbOp(<<CbKey(2), CbAlg("HS512")>>), G, BSetCbOp(<<CbRet(0)>>)>>,              \* callback picks another key once
     <<[op |-> "BMap", b |-> 0, k |-> "set", which |-> "clm", v |-> Val("str", "sub", "x", 1)], G>> }
 RECURSIVE BdSeqs(_)
 BdSeqs(n) == IF n = 0 THEN {<<>>} ELSE { e \o t : e \in BdElems, t \in BdSeqs(n - 1) }
-BuilderScripts == { <<LoadOp(<<KOct, KShort>>), BNewOp, BSetKeyOp("HS256", 0)>> \o q : q \in BdSeqs(MaxLen) }
+BuilderScripts == { <<LoadOp(<<KOct, KShort, K512>>), BNewOp, BSetKeyOp("HS256", 0)>> \o q : q \in BdSeqs(MaxLen) }
+                  \cup { <<LoadOp(<<KOct, KShort, K512>>), BNewOp>> \o q : q \in BdSeqs(IF MaxLen > 3 THEN 3 ELSE MaxLen) }
 
-C13Scripts == CheckerScripts \cup BuilderScripts
+C13Scripts == CheckerScripts \cup NoKeyScripts \cup BuilderScripts
 MCSpec == ISpecWith(C13Scripts)
 
 \* ---- on the specification: the configuration a verdict is computed from is
